@@ -26,11 +26,11 @@ CHECKS = {
         "every quiet report, unreadable (corrupt) copies do not count as copies; conflict-heavy universes, resolver answers that keep data, corrupt-read placements, tail schedules in which one side's events are synced for 1 / 16 steps before the other side's arrive. "
         "SysMC.tla shows the guards make NoLoss an invariant for ANY engine.",
    note=TRUST_SYS, technique="TLA+ spec with ghost ledger + TLC model checking of the contract; TLC-generated conflict histories replayed on the real engine; TLC trace validation"),
- "C03": dict(ready=False, engine="sys", design_ref="DESIGN.md 6 (C03), 13",
+ "C03": dict(ready=True, engine="sys", design_ref="DESIGN.md 6 (C03), 13",
    text=SYS + "C03: one-sided histories, both directions: OriginUntouched after every engine step, AsExpected + NoArtefacts at quiet (expected tree computed by the "
         "specification from the history), NoEcho / StaysQuiet over three after-quiet rounds, Productive (no redundant transfer).",
    note=TRUST_SYS, technique="TLA+ spec + TLC: generated one-sided behaviours replayed on the real engine; TLC trace validation against the specification's expected tree"),
- "C04": dict(ready=False, engine="sys", design_ref="DESIGN.md 6 (C04), 13",
+ "C04": dict(ready=True, engine="sys", design_ref="DESIGN.md 6 (C04), 13",
    text=SYS + "C04: two-sided histories with disjoint footprints (FootprintsDisjoint + every operation applies on the single expected tree, both in Sys.tla): "
         "AsExpected (base + both sides' changes, deletes stay deleted, renames only at the new path), NoArtefacts.",
    note=TRUST_SYS, technique="TLA+ spec + TLC: generated disjoint two-sided behaviours replayed on the real engine; TLC trace validation of the three-way-merge law"),
@@ -38,7 +38,7 @@ CHECKS = {
    text=SYS + "C05: the finite product of Gen_Conflict.tla (shape x content pair x 9 resolver behaviours x first side x intake tokens x post-conflict schedules): "
         "resolver called once iff contents differ, handles truthful, exact outcome table at quiet, loser kept iff keep - identical for every schedule.",
    note=TRUST_SYS, technique="TLA+ enumeration of the conflict family + TLC trace validation of the resolver contract on the real engine"),
- "C06": dict(ready=False, engine="sys", design_ref="DESIGN.md 6 (C06), 13",
+ "C06": dict(ready=True, engine="sys", design_ref="DESIGN.md 6 (C06), 13",
    text=SYS + "C06: histories with a stop at a step boundary (after an operation, after intake, mid-sync), operations while down, restart over the same storage with "
         "intact / removed / rejected cursors: AsExpected (covering form after a walk), NoArtefacts, Productive (nothing re-transferred).",
    note=TRUST_SYS + " Restart = done() + new CloudSync over the same storage object (MockStorage fixture) and provider objects.",
@@ -64,7 +64,7 @@ CHECKS = {
    note=TRUST + "byte strings represented by five classes; durability = close and reopen of the file, not power loss; thread "
         "interleavings are whatever the OS produced in this run.",
    technique="TLA+ spec (Storage.tla) + TLC model checking; TLC-generated behaviours replayed on the backends; TLC trace validation incl. linearisability search"),
- "C10": dict(ready=False, engine="sys", design_ref="DESIGN.md 6 (C10), 13",
+ "C10": dict(ready=True, engine="sys", design_ref="DESIGN.md 6 (C10), 13",
    text=SYS + "C10: for every base behaviour, one run per (engine provider call index, fault kind in temporary / disconnected / token / out-of-space): FaultNotified "
         "(matching notification before the step ends), then Converged / NoLoss / AsExpected after the faults stop.",
    note=TRUST_SYS + " Faults are injected at engine-issued API calls only; a disconnect fault really disconnects the provider.", technique="fault enumeration over TLC-generated behaviours; TLC trace validation",
@@ -76,7 +76,7 @@ CHECKS = {
         "case-variant universe on case-insensitive flavours).",
    note=TRUST + "table read through SyncState's private indexes (_oids, _paths, _changeset_storage, _dirtyset).",
    technique="TLA+ invariants (StateInv.tla) evaluated by TLC on observed states of the real SyncState; TLC-generated event-tuple sequences"),
- "C12": dict(ready=False, engine="sys", design_ref="DESIGN.md 6 (C12), 13",
+ "C12": dict(ready=True, engine="sys", design_ref="DESIGN.md 6 (C12), 13",
    text=SYS + "C12: accounts with objects outside the roots (other folder, prefix sibling <root>X, account-root file), one-sided histories incl. moves across the boundary, "
         "roots by path or by id, filtering on/off, a declining translate: InsideRoot on every engine call, OutsideUntouched after every step, Converged on the roots, DeclinedLeftAlone.",
    note=TRUST_SYS, technique="TLA+ spec + TLC: generated boundary-crossing behaviours replayed on the real engine; TLC trace validation of confinement clauses"),
@@ -87,7 +87,7 @@ CHECKS = {
         "law on the CODE's results and compares them with the specification operators.",
    note=TRUST + "characters represented by 8 classes; helpers on bare Provider subclasses, translate on real CloudSync objects; folder laws for absolute folders join(f).",
    technique="TLA+ spec (Paths.tla) + TLC model checking of the laws; TLC-enumerated inputs executed on the real helpers; TLC trace validation"),
- "C14": dict(ready=False, engine="sys", design_ref="DESIGN.md 6 (C14), 13",
+ "C14": dict(ready=True, engine="sys", design_ref="DESIGN.md 6 (C14), 13",
    text=SYS + "C14: every non-conflicting behaviour executed twice - prompt in-order delivery vs a mangled event stream (duplicated, replayed, walk before every intake, "
         "per-event batches, ghost events; reversed / delayed / path-less on id-stable sides) - as one paired trace: SameQuietTrees, NoSpuriousTransfers, NoExtraConflicted.",
    note=TRUST_SYS, technique="TLA+ spec + TLC: paired-trace validation (mangled run judged against the prompt run of the same TLC-generated behaviour)"),
@@ -102,17 +102,19 @@ CHECKS = {
    text="ProviderModel.tla (reference tree: create/mkdir/upload/rename/delete with documented error classes, queries, event feed) model-checked for both id styles and case "
         "modes; every transition of the model's tree graph up to 3 calls (thorough 4) plus simulated 10-call sequences over the full alphabet and all content size classes "
         "executed on fresh instances of the four MockProvider flavours and of FileSystemProvider on a real temporary directory; results, observations and drained events "
-        "validated by TLC (Trace_Provider).",
+        "validated by TLC (Trace_Provider). File contents are 18 byte strings in groups that collide under partial (head/tail) sampling around the 1 KiB / 2 KiB boundaries; "
+        "ProviderIdentity.tla models the bound account identity and every connect(a)/connect(b)/disconnect/reconnect sequence <= 3 (4) is replayed on every provider.",
    note=TRUST + "FS case-sensitive only, events awaited with an ordered sentinel; real cloud providers cannot run offline and are out of scope.",
    technique="TLA+ spec (ProviderModel.tla) + TLC model checking; state-graph transition coverage + simulation replayed on mock and filesystem providers; TLC trace validation"),
- "C17": dict(ready=False, engine="sys", design_ref="DESIGN.md 6 (C17), 13",
+ "C17": dict(ready=True, engine="sys", design_ref="DESIGN.md 6 (C17), 13",
    text="Sched.tla: every configuration of pending entries x change times x priorities x ages enumerated by TLC, answered by the real SyncState.change(), laws "
         "(ChosenIsEligible, LowerPriorityThenOlderFirst, ZeroAgeAllEligible) evaluated by TLC on the code's answer; system runs under the virtual clock with ageing 2/4 s "
         "and priority tables: Aged at every effective engine write (time since the engine was last notified about that object, either side).",
    note=TRUST_SYS, technique="TLA+ spec (Sched.tla) + TLC enumeration replayed on SyncState.change(); TLC trace validation of the ageing clause on timed system runs"),
  "C18": dict(ready=True, engine="runnable", design_ref="DESIGN.md 3.9, 6 (C18), 13",
    text="Runnable.tla (loop thread + controllers at shared-variable grain) model-checked exhaustively for small bounds; every do-outcome sequence x backoff triples, TLC-enumerated "
-        "gated schedules, call sequences and seeded free-running threads executed on the real Runnable; every notify/do/stop history on the real NotificationManager; recorded "
+        "gated schedules (incl. the thread start-up window between start() returning and the loop's first statement, and loop sleeps below / between / above the backoff bounds), "
+        "call sequences and seeded free-running threads executed on the real Runnable; every notify/do/stop history on the real NotificationManager; recorded "
         "traces validated by TLC (clause monitor + search for a placement of the unlogged steps).",
    note=TRUST + "observation through overridable methods and a proxy for cloudsync.runnable.log; dyadic backoff parameters; free-run interleavings sampled.",
    technique="TLA+ spec (Runnable.tla, Notifier.tla) + TLC model checking; TLC-generated gated schedules replayed on the real classes; TLC trace validation incl. silent-step placement search"),
